@@ -31,7 +31,7 @@ ALL_DEVS = ['SharedCache', 'LoopRefetch', 'Ed25519Unsupported']
 INVS = ['TypeOK', 'StackBounded', 'VerdictIffChain', 'InstanceIndependent', 'ConstructorRefuses', 'Terminated', 'NothingBad']
 RELEVANT = {'SharedCache': {'VerdictIffChain', 'InstanceIndependent'},
             'LoopRefetch': {'Terminates'},
-            'Ed25519Unsupported': {'VerdictIffChain'}}
+            'Ed25519Unsupported': {'VerdictIffChain', 'ConstructorRefuses'}}
 INSTS2 = ['v1', 'v2']
 INSTS4 = ['v1', 'v2', 'v3', 'v4']
 
@@ -300,8 +300,14 @@ def record(world, rng, pool, kt):
                 name, _, _, _ = trustkit.enc.parse_interest(sc.pending[v][0])
                 n = sc.mat.abstract.get(trustkit.enc.Name.to_bytes(name))
                 kind = world['certs'][n]['serv'] if n in world['certs'] else 'absent'
-                if kind in ('timeout', 'absent') and len(fetching) > 1:
-                    continue          # bound of the spec: a timeout only while no other instance waits
+                if kind in ('timeout', 'absent'):
+                    # bound of the spec: the lifetime passes only when the world answers none of the waiting instances
+                    def kind_of(u):
+                        nm, _, _, _ = trustkit.enc.parse_interest(sc.pending[u][0])
+                        x = sc.mat.abstract.get(trustkit.enc.Name.to_bytes(nm))
+                        return world['certs'][x]['serv'] if x in world['certs'] else 'absent'
+                    if any(kind_of(u) not in ('timeout', 'absent') for u in fetching):
+                        continue
                 run.apply('FetchReply', [v, kind])
                 ev.append({'a': 'FetchReply', 'v': v, 'kind': kind})
             ev[-1]['post'] = post_of(run)
@@ -444,10 +450,9 @@ def run(ctx):
     forced = ([], ALL_DEVS)
     if 'B' in ctx.stages or 'C' in ctx.stages:
         learn = {'has': set(), 'hasnot': set()}
-        stage_b(ctx, 'learn', consts(INSTS2, 2, 'W2', ALL_DEVS, anchors='MCAnchorsGood'), pool, cache, ['ec'],
-                max_paths=ctx.pick(150, 600), learn=learn)
-        stage_b(ctx, 'learn-loop', consts(['v1'], 1, 'W3', ALL_DEVS, anchors='MCAnchorsGood'), pool, cache, ['ec'],
-                max_paths=ctx.pick(150, 600), learn=learn)
+        stage_b(ctx, 'learn-cache', consts(INSTS2, 2, 'WClean', ALL_DEVS, anchors='MCAnchorsGood'), pool, cache, ['ec'],
+                max_paths=ctx.pick(120, 400), learn=learn)
+        stage_b(ctx, 'learn-loop', consts(['v1'], 1, 'WLoop', ALL_DEVS, anchors='MCAnchorsGood'), pool, cache, ['ec'], learn=learn)
         stage_b(ctx, 'learn-ed', consts(['v1'], 1, 'WEd', ALL_DEVS, anchors='MCAnchorsGood'), pool, cache, ['ed'], learn=learn)
         if learn['has'] & learn['hasnot']:
             ctx.violation('C14/lvs_validator/inconsistent-deviation', 'the code shows and does not show %s' % sorted(
@@ -457,9 +462,12 @@ def run(ctx):
     if 'B' in ctx.stages:
         has, unk = forced
         kts = ['ec'] * 9 + ['rsa'] if ctx.quick else ['ec'] * 5 + ['rsa']
-        stage_b(ctx, 'main', consts(INSTS2, 2, ctx.pick('W3', 'W4'), unk, has), pool, cache, kts, max_paths=ctx.pick(700, 12000))
-        stage_b(ctx, 'orders', consts(INSTS2, 3, 'W2', unk, has, anchors='MCAnchorsGood'), pool, cache, ['ec'],
-                max_paths=ctx.pick(300, 6000))
+        # every world (depth, deviation, link), one validation at a time, both instances, good and bad anchors
+        stage_b(ctx, 'main', consts(INSTS2, ctx.pick(1, 2), ctx.pick('W3', 'W4'), unk, has), pool, cache, kts,
+                max_paths=ctx.pick(700, 12000))
+        # orders / interleavings of up to 3 validations by two instances on a few worlds
+        stage_b(ctx, 'orders', consts(INSTS2, ctx.pick(2, 3), 'WOrd', unk, has, anchors='MCAnchorsGood'), pool, cache, ['ec'],
+                max_paths=ctx.pick(400, 8000))
         stage_b(ctx, 'ed25519', consts(INSTS2, 2, 'WEd', unk, has, anchors='MCAnchorsGood'), pool, cache, ['ed'],
                 max_paths=ctx.pick(60, 400))
         ctx.note('stage B wall %.0fs (incl. learning)' % (time.time() - t1))
